@@ -16,7 +16,7 @@ def describe(tier):
         "Oracle: an exception is raised and victim + neighbours read back unchanged.",
         bounds=dict(history_types=len(universe.rh(tier)), legal_prefix_depth=0 if tier == "quick" else 1),
         assumptions=["only the misuse classes named by the property are demanded to raise"],
-        must_fire=["x-index", "x-len", "x-str", "x-items", "x-struct", "x-union", "x-ctx", "x-offset"],
+        must_fire=["x-index", "x-len", "x-str", "x-items", "x-struct", "x-struct-xobj", "x-union", "x-ctx", "x-offset"],
     )
 
 
@@ -130,6 +130,7 @@ def misuse_menu(s, opts, d):
         elif nt[0] == "St" and path and path[-1] not in ("*", "#") and len(nt[1]) > 1 and xt.is_dyn(nt) and grow_value(nt, nv) is not None:
             for via in ("h", "v"):
                 evs.append(("x-struct", via, path))
+            evs.append(("x-struct-xobj", "h", path))
         elif nt[0] == "Str" and path:
             for extra in (1, 8, 64):
                 for via in ("h", "v"):
@@ -208,6 +209,11 @@ def apply_misuse(s, ev):
             else:
                 d[n] = hist.same_size_alt(ft, nv[n], j) if not xt.has_refs(ft) else nv[n]
         hand.assign(rt, rh, path, xt.to_py(nt, d))
+    elif kind == "x-struct-xobj":
+        # an xobject of the same class whose dynamic parts are larger than the space of the element
+        g = grow_value(nt, nv)
+        src = xt.construct(nt, xt.to_py(nt, g), _buffer=place.traced("np", 0))
+        hand.assign(rt, rh, path, src)
     elif kind == "x-union":
         if ev[3] == "foreign-object":
             class NotAMember(xo.Struct):
